@@ -52,8 +52,11 @@ Val(s) == [k |-> "val", e |-> "", vals |-> s]
 RECURSIVE Flat(_)
 \* a cell is a small natural number, NULL (-1) or a text that is not a number and that Shift_JIS cannot spell (H)
 H == 777
-CellText(x) == IF x = -1 THEN "NULL" ELSE IF x = H THEN "H" ELSE ToString(x)
-Plus(x, n) == IF x = -1 \/ x = H THEN -1 ELSE x + n       \* arithmetic on NULL or on a non-numeric text is NULL
+\* ... or a datetime value (D): DATETIME('2012-02-03 00:00:00'), a typed cell until the table is written and loaded again
+D == 888
+NonNum == {-1, H, D}
+CellText(x) == IF x = -1 THEN "NULL" ELSE IF x = H THEN "H" ELSE IF x = D THEN "D" ELSE ToString(x)
+Plus(x, n) == IF x \in NonNum THEN -1 ELSE x + n       \* arithmetic on NULL, on a non-numeric text or on a datetime is NULL
 Flat(rows) == IF rows = <<>> THEN <<>> ELSE [i \in 1..Len(Head(rows)) |-> CellText(Head(rows)[i])] \o Flat(Tail(rows))
 \* what is shown of a table: the column names and the cells, row by row (an empty result shows no header)
 Show(t) == IF t.absent THEN <<"ABSENT">> ELSE IF t.rows = <<>> THEN <<"EMPTY">> ELSE t.cols \o Flat(t.rows)
@@ -190,6 +193,23 @@ AddFailOp(t, k) == IF Has(t, "y") THEN F("DuplicateFieldName")
                    ELSE IF \E i \in 1..Len(t.rows) : t.rows[i][ColIdx(t, "id")] = k THEN F("IntegerDividedByZero")
                    ELSE R(T(Append(t.cols, "y"), [i \in 1..Len(t.rows) |-> Append(t.rows[i], 7)]), 1)
 
+\* DELETE FROM t WHERE v = DATETIME('2012-02-03 00:00:00') : the rows whose v is that datetime - as a value or as its text
+DeleteDOp(t) ==
+  IF ~Has(t, "v") THEN (IF t.rows = <<>> THEN R(t, 0) ELSE F("FieldNotExist"))
+  ELSE LET iv == ColIdx(t, "v")
+           gone == {i \in 1..Len(t.rows) : t.rows[i][iv] = D}
+           keep == SelectSeq([i \in 1..Len(t.rows) |-> [i |-> i, r |-> t.rows[i]]], LAMBDA x : x.i \notin gone) IN
+       R(T(t.cols, [j \in 1..Len(keep) |-> keep[j].r]), Cardinality(gone))
+
+\* INSERT INTO t VALUES (k, (SELECT v FROM u LIMIT 1)) [, (k + 1)] : the scalar sub-query is the v of the first row of u
+\* (NULL when u has no rows); with the second, too short, row nothing is inserted.  Rows are evaluated in order, each
+\* checked for its length after its values are known.
+InsertSubOp(t, u, k, bad) ==
+  IF u.absent THEN F("FileNotExist")
+  ELSE IF u.rows # <<>> /\ ~Has(u, "v") THEN F("FieldNotExist")
+  ELSE IF bad THEN F("InsertRowValueLength")
+  ELSE InsertOp(t, <<<<k, IF u.rows = <<>> THEN -1 ELSE u.rows[1][ColIdx(u, "v")]>>>>)
+
 \* the frame condition of C05: a successful statement changes nothing but what it names
 SameShapeUnlessAlter(t, t2) == t2.cols = t.cols
 
@@ -221,7 +241,7 @@ Select(t) ==
 \* SELECT * FROM (SELECT * FROM t) s  /  SELECT COUNT(*), SUM(v) FROM t : the same table as the transaction sees it
 SelectSub(t) == Select(t)
 RECURSIVE SumCol(_, _)
-SumCol(rows, i) == IF rows = <<>> THEN 0 ELSE (IF Head(rows)[i] \in {-1, H} THEN 0 ELSE Head(rows)[i]) + SumCol(Tail(rows), i)
+SumCol(rows, i) == IF rows = <<>> THEN 0 ELSE (IF Head(rows)[i] \in NonNum THEN 0 ELSE Head(rows)[i]) + SumCol(Tail(rows), i)
 SelectAgg(t) ==
   /\ IF t # TempT /\ Seen(t).absent
        THEN out' = Err("FileNotExist") /\ ended' = Script /\ UNCHANGED cache
@@ -229,7 +249,7 @@ SelectAgg(t) ==
        THEN /\ out' = Err("FieldNotExist") /\ ended' = Script
             /\ cache' = IF t # TempT /\ ~cache[t].loaded THEN [cache EXCEPT ![t] = Loaded(disk[t], FALSE)] ELSE cache
        ELSE /\ out' = Val(<<ToString(Len(Seen(t).rows)),
-                            IF Seen(t).rows = <<>> \/ \A i \in 1..Len(Seen(t).rows) : Seen(t).rows[i][ColIdx(Seen(t), "v")] \in {-1, H} THEN "NULL"
+                            IF Seen(t).rows = <<>> \/ \A i \in 1..Len(Seen(t).rows) : Seen(t).rows[i][ColIdx(Seen(t), "v")] \in NonNum THEN "NULL"
                             ELSE ToString(SumCol(Seen(t).rows, ColIdx(Seen(t), "v")))>>)
             /\ cache' = IF t # TempT /\ ~cache[t].loaded THEN [cache EXCEPT ![t] = Loaded(disk[t], FALSE)] ELSE cache
             /\ UNCHANGED ended
@@ -344,6 +364,20 @@ Rename(t, a, b)  == Dml(t, RenameOp(ForUpdate(t), a, b), TRUE)
 UpdateSwap(t, k) == Dml(t, UpdateSwapOp(ForUpdate(t), k), FALSE)
 \* INSERT INTO t VALUES (k, 'H')
 InsertH(t, k)    == RowsOk(t, 1) /\ Dml(t, InsertOp(ForUpdate(t), <<<<k, H>>>>), FALSE)
+
+\* INSERT INTO t VALUES (k, DATETIME('2012-02-03 00:00:00'))
+InsertD(t, k)    == RowsOk(t, 1) /\ Dml(t, InsertOp(ForUpdate(t), <<<<k, D>>>>), FALSE)
+DeleteD(t)       == Dml(t, DeleteDOp(ForUpdate(t)), FALSE)
+InsertSub(t, u, k, bad) == RowsOk(t, 1) /\ DmlR(t, InsertSubOp(ForUpdate(t), IF u = t THEN ForUpdate(t) ELSE Seen(u), k, bad), FALSE, {u} \ {t, TempT}, {})
+\* SELECT COUNT(*) FROM t WHERE v <= DATETIME('2012-02-03 00:00:00') : a read that compares every v with a datetime
+SelectD(t) ==
+  /\ IF t # TempT /\ Seen(t).absent
+       THEN out' = Err("FileNotExist") /\ ended' = Script /\ UNCHANGED cache
+       ELSE /\ IF ~Has(Seen(t), "v") /\ Seen(t).rows # <<>>
+                 THEN out' = Err("FieldNotExist") /\ ended' = Script
+                 ELSE out' = Val(<<ToString(Cardinality({i \in 1..Len(Seen(t).rows) : Seen(t).rows[i][ColIdx(Seen(t), "v")] = D}))>>) /\ UNCHANGED ended
+            /\ cache' = IF t # TempT /\ ~cache[t].loaded THEN [cache EXCEPT ![t] = Loaded(disk[t], FALSE)] ELSE cache
+  /\ UNCHANGED <<disk, dirty, created, temp, envn, enc>>
 
 \* SELECT * FROM CSV(',', `t.csv`, 'UTF8') : the table function names the same file, hence the same loaded table
 SelectFn(t) == t # TempT /\ Select(t)
@@ -483,6 +517,10 @@ Do(a) ==
        [] a.act = "inserth"  -> InsertH(a.t, a.k)
        [] a.act = "selectfn" -> SelectFn(a.t)
        [] a.act = "selectinline" -> SelectInline(a.t)
+       [] a.act = "insertd"  -> InsertD(a.t, a.k)
+       [] a.act = "deleted"  -> DeleteD(a.t)
+       [] a.act = "selectd"  -> SelectD(a.t)
+       [] a.act = "insertsub" -> InsertSub(a.t, a.u, a.k, a.x = 1)
        [] a.act = "setenc"   -> SetEnc(a.t)
        [] a.act = "selectpath" -> SelectPath(a.t)
        [] a.act = "insertpath" -> InsertPath(a.t, a.k)
@@ -513,6 +551,9 @@ Actions ==
   \cup {A("inserth", t, k, 0) : t \in Tables, k \in Keys}
   \cup {A("selectfn", t, 0, 0) : t \in AllFiles}
   \cup {A("selectinline", t, 0, 0) : t \in AllFiles}
+  \cup {A("insertd", t, k, 0) : t \in Tables, k \in Keys}
+  \cup {A(x, t, 0, 0) : x \in {"deleted", "selectd"}, t \in Tables}
+  \cup {[act |-> "insertsub", t |-> t, u |-> u, k |-> k, x |-> x] : t \in Tables, u \in Tables \ {NewFile}, k \in Keys, x \in {0, 1}}
   \cup {A("setenc", t, 0, 0) : t \in Tables}
   \cup {A("selectpath", t, 0, x) : t \in AllFiles, x \in 1..4}          \* x: the spelling
   \cup {A("insertpath", t, k, x) : t \in AllFiles, k \in Keys, x \in 1..4}
